@@ -1,0 +1,73 @@
+//go:build verif
+
+package transport
+
+// Verification hooks for property C13 (transport frame). Add-only; compiled
+// only with -tags verif. They expose the unexported frame functions of tcp.go
+// without changing them.
+
+import (
+	"errors"
+	"net"
+)
+
+// VerifC13EncodeHeader is requestHeader.encode on a fresh buffer.
+func VerifC13EncodeHeader(method uint16, size uint64, crc uint32) []byte {
+	h := requestHeader{method: method, size: size, crc: crc}
+	return h.encode(make([]byte, requestHeaderSize))
+}
+
+// VerifC13DecodeHeader is requestHeader.decode.
+func VerifC13DecodeHeader(buf []byte) (bool, uint16, uint64, uint32) {
+	h := requestHeader{}
+	ok := h.decode(buf)
+	return ok, h.method, h.size, h.crc
+}
+
+// VerifC13WriteMessage is writeMessage with a caller supplied header.
+func VerifC13WriteMessage(conn net.Conn,
+	method uint16, crc uint32, buf []byte, encrypted bool) error {
+	h := requestHeader{method: method, crc: crc}
+	return writeMessage(conn, h, buf, make([]byte, requestHeaderSize), encrypted)
+}
+
+// VerifC13ReadFrame reads one frame the way serveConn does: readMagicNumber
+// followed by readMessage. kind is "ok", "poison", "bad" (ErrBadMessage) or
+// "io" (any other error).
+func VerifC13ReadFrame(conn net.Conn, rbufLen int,
+	encrypted bool) (kind string, method uint16, size uint64, crc uint32, payload []byte) {
+	magicNum := make([]byte, len(magicNumber))
+	header := make([]byte, requestHeaderSize)
+	tbuf := make([]byte, rbufLen)
+	classify := func(err error) string {
+		if errors.Is(err, errPoisonReceived) {
+			return "poison"
+		}
+		if errors.Is(err, ErrBadMessage) {
+			return "bad"
+		}
+		return "io"
+	}
+	if err := readMagicNumber(conn, magicNum); err != nil {
+		return classify(err), 0, 0, 0, nil
+	}
+	h, buf, err := readMessage(conn, header, tbuf, encrypted)
+	if err != nil {
+		return classify(err), 0, 0, 0, nil
+	}
+	return "ok", h.method, h.size, h.crc, buf
+}
+
+// VerifC13SetRecvBufSize changes the chunk size of the read/write loops of
+// readMessage/writeMessage and returns the previous value.
+func VerifC13SetRecvBufSize(n uint64) uint64 {
+	old := recvBufSize
+	recvBufSize = n
+	return old
+}
+
+// VerifC13Constants returns requestHeaderSize, raftType, snapshotType and the
+// magic number of the running binary (cross-check of the generated facts).
+func VerifC13Constants() (int, uint16, uint16, [2]byte, [2]byte) {
+	return requestHeaderSize, raftType, snapshotType, magicNumber, poisonNumber
+}
